@@ -44,13 +44,12 @@ func (l *DNSNameWildcardLeftofPublicSuffix) CheckApplies(c *x509.Certificate) bo
 }
 
 func (l *DNSNameWildcardLeftofPublicSuffix) Execute(c *x509.Certificate) *lint.LintResult {
+	sawParseError := false
 	if c.Subject.CommonName != "" && !util.CommonNameIsIP(c) {
 		domainInfo := c.GetParsedSubjectCommonName(false)
 		if domainInfo.ParseError != nil {
-			return &lint.LintResult{Status: lint.NA}
-		}
-
-		if domainInfo.ParsedDomain.SLD == "*" {
+			sawParseError = true
+		} else if domainInfo.ParsedDomain.SLD == "*" {
 			return &lint.LintResult{Status: lint.Notice}
 		}
 	}
@@ -58,12 +57,16 @@ func (l *DNSNameWildcardLeftofPublicSuffix) Execute(c *x509.Certificate) *lint.L
 	parsedSANDNSNames := c.GetParsedDNSNames(false)
 	for i := range c.GetParsedDNSNames(false) {
 		if parsedSANDNSNames[i].ParseError != nil {
-			return &lint.LintResult{Status: lint.NA}
+			sawParseError = true
+			continue
 		}
 
 		if parsedSANDNSNames[i].ParsedDomain.SLD == "*" {
 			return &lint.LintResult{Status: lint.Notice}
 		}
+	}
+	if sawParseError {
+		return &lint.LintResult{Status: lint.NA}
 	}
 	return &lint.LintResult{Status: lint.Pass}
 }
